@@ -84,6 +84,7 @@ NOTES = {
     'C17_3': 'undecided: the change uses a range-for over an initializer list, which the C++ front end of CBMC rejects (the slice no longer compiles); reported as exit 2, never as held',
     'C12_4': 'undecided: the changed loop no longer matches desugaring rule D1 and uses std::string construction from iterators, outside the front end',
     'C06_3': 'missed when first run; caught after parse_cr_string was brought under contract (C06-K9: the delimiter loop no longer decreases its variant)',
+    'C19_4': 'missed when first run; caught after the re-split of the lambda [] was brought under contract (C19-K5: the closing bracket keeps its original column)',
     'C17_4': 'missed when first run; caught after remove_blank_lines_between_imports was brought under contract (C17-K9: the newline after the last import is outside the frame)',
     'C06_1': 'missed in round 1 (loop-contract proof parked as WIP); caught after the walk was checked as a direct VC with the sentinel assertion of the navigation model (C06-K10)',
     'C04_1': 'missed in round 1; caught after paren_multiline_before_brace was brought under contract (C04-K5)',
